@@ -253,6 +253,35 @@ fn roundtrips(cx: &mut Cx, victim: NodeId, h: &Arc<Honest>, art: Art) {
         });
     }
     if art == Art::Pk {
+        // the key store on disk: the library's own writer, a path with a HISTORY (nothing there / a
+        // longer older document / a shorter one / another key pair written just before), a crash
+        // of the role, and the reload of whatever the file then holds
+        for history in 0..4u64 {
+        let path = std::env::temp_dir().join(format!("zksim-bbs-keystore-{}-{}-{}-{history}.json", std::process::id(), cx.run_index, cx.run_seed & 0xffff)).to_string_lossy().to_string();
+        cx.count(&format!("fault.store_file_history_{}", ["fresh_path", "longer_older_document", "shorter_older_document", "rotation_after_another_key"][history as usize]));
+        let ikm = zksim_core::prng::bytes_for(cx.run_seed, b"store-ikm", 0, 32);
+        let (p1, p2, path2) = (path.clone(), path.clone(), path.clone());
+        cx.step(victim, "write-key-file", StepOpts::default(), move || {
+            match history {
+                0 => { let _ = std::fs::remove_file(&p1); }
+                1 => std::fs::write(&p1, format!("{{\n  \"public\": \"{}\",\n  \"private\": \"{}\"\n}}\n\n{{\"stale\": true}}\n", "ab".repeat(96), "cd".repeat(32))).map_err(|e| e.to_string())?,
+                2 => std::fs::write(&p1, "{}").map_err(|e| e.to_string())?,
+                _ => { api::keypair_to_file(suite, &[ikm.clone(), vec![9]].concat(), &p1)?; use std::io::Write; std::fs::OpenOptions::new().append(true).open(&p1).and_then(|mut f| f.write_all(b"\n\n")).map_err(|e| e.to_string())?; }
+            }
+            api::keypair_to_file(suite, &ikm, &p1)
+        }, move |cx, st| {
+            let (sk, pk) = match st.out { Ok(Ok(t)) => t, other => { cx.violation("C09", "store/key-file-write-failed".into(), format!("{other:?}")); let _ = std::fs::remove_file(&path2); return; } };
+            cx.restart(victim);
+            cx.step(victim, "reload-key-file", StepOpts::default(), move || { let r = api::keypair_from_file(suite, &p2); let _ = std::fs::remove_file(&p2); r }, move |cx, st| {
+                cx.eval(&[b"key-file", &pk, &[history as u8]], true);
+                cx.count("fault.restart_reload_from_file");
+                match st.out {
+                    Ok(Ok((a, b))) if a == sk && b == pk => {}
+                    other => cx.violation("C09", "store/key-file-does-not-read-back".into(), format!("file history {history}: {:?}", other.map(|r| r.map(|_| "another key")))),
+                }
+            });
+        });
+        }
         let (b1, b2) = (b.clone(), b.clone());
         cx.step(victim, "store-coordinates", StepOpts::default(), move || api::pk_to_coordinates(&b1), move |cx, st| {
             let (x, y) = match st.out { Ok(Ok(t)) => t, other => { cx.violation("C09", "PublicKey/roundtrip/coordinates-encode".into(), format!("{other:?}")); return; } };
